@@ -536,6 +536,7 @@ class IteratorQueue(IterableQueue[_ValueT]):
     self._max_enqueuer = max_enqueuer
     self._enqueue_start = 0
     self._enqueue_stop = 0
+    self._enqueue_stopped = False
     self.ignore_error = ignore_error
 
   @classmethod
@@ -577,7 +578,8 @@ class IteratorQueue(IterableQueue[_ValueT]):
   @property
   def enqueue_done(self) -> bool:
     """Indicates whether there is ongoing enqueuer."""
-    if self._exception:
+    # A stop request also applies to the enqueuers that have not started yet.
+    if self._exception or self._enqueue_stopped:
       return True
     # If max_enqueuer is not set, it means the no enqueuer has started yet.
     if not self._max_enqueuer:
@@ -760,6 +762,7 @@ class IteratorQueue(IterableQueue[_ValueT]):
     """
     exc = exc or StopIteration()
     with self._states_lock:
+      self._enqueue_stopped = True
       self._enqueue_stop = self._enqueue_start = self._max_enqueuer
       if not is_stop_iteration(exc):
         self._exception = exc
